@@ -557,6 +557,152 @@ Definition parse_secaction (data : bytes) : option rule_desc :=
          end
   end.
 
+(* strconv.Atoi on what the id / phase actions accept: optional '+', decimal digits; 0 otherwise *)
+Fixpoint p_digits (s : bytes) (acc : N) : option N :=
+  match s with
+  | [] => Some acc
+  | c :: r => if (48 <=? c) && (c <=? 57) then p_digits r (acc * 10 + (c - 48)) else None
+  end.
+Definition p_atoi (s : bytes) : N :=
+  let s := match s with c :: r => if c =? 43 then r else s | [] => s end in
+  match s with
+  | [] => 0
+  | _ => match p_digits s 0 with Some n => n | None => 0 end
+  end.
+
+Definition p_parse_phase (v : bytes) : N :=
+  if bytes_eqb v s_request then 2
+  else if bytes_eqb v s_response then 4
+  else if bytes_eqb v s_logging then 5
+  else p_atoi v.
+
+Record meta := mk_meta {
+  m_id : N; m_phase : N; m_msg : option bytes; m_tags : list bytes; m_rev : bytes; m_ver : bytes
+}.
+
+(* the metadata pass of applyParsedActions (Init of id, phase, msg, tag, rev, ver) *)
+Definition meta_step (m : meta) (a : action) : meta :=
+  let n := a_name a in
+  let v := a_value a in
+  if bytes_eqb n s_id then mk_meta (p_atoi v) (m_phase m) (m_msg m) (m_tags m) (m_rev m) (m_ver m)
+  else if bytes_eqb n s_phase then mk_meta (m_id m) (p_parse_phase v) (m_msg m) (m_tags m) (m_rev m) (m_ver m)
+  else if bytes_eqb n s_msg then mk_meta (m_id m) (m_phase m) (Some (maybe_remove_quotes v)) (m_tags m) (m_rev m) (m_ver m)
+  else if bytes_eqb n s_tag then mk_meta (m_id m) (m_phase m) (m_msg m) (m_tags m ++ [v]) (m_rev m) (m_ver m)
+  else if bytes_eqb n s_rev then mk_meta (m_id m) (m_phase m) (m_msg m) (m_tags m) v (m_ver m)
+  else if bytes_eqb n s_ver then mk_meta (m_id m) (m_phase m) (m_msg m) (m_tags m) (m_rev m) v
+  else m.
+
+Definition meta_of (al : list action) : meta :=
+  fold_left meta_step (filter (fun a => a_type a =? 1) al) (mk_meta 0 2 None [] [] []).
+
+
+(* the id RuleGroup.FindByID compares (0 when the rule has none) *)
+Definition rule_id (d : rule_desc) : N := m_id (meta_of (r_actions d)).
+
+(* strconv.Atoi with its optional sign; None = an error (overflow is outside the model) *)
+Definition p_atoi_z (s : bytes) : option Z :=
+  match s with
+  | [] => None
+  | c :: r =>
+    if c =? 43 then match r with [] => None | _ => option_map Z.of_N (p_digits r 0) end
+    else if c =? 45 then match r with [] => None | _ => option_map (fun n => Z.opp (Z.of_N n)) (p_digits r 0) end
+    else option_map Z.of_N (p_digits s 0)
+  end.
+
+(* strings.Fields on ASCII white space *)
+Fixpoint p_fields_aux (s : bytes) (cur : bytes) : list bytes :=
+  match s with
+  | [] => match cur with [] => [] | _ => [rev cur] end
+  | c :: r => if p_is_ascii_space c
+              then match cur with [] => p_fields_aux r [] | _ => rev cur :: p_fields_aux r [] end
+              else p_fields_aux r (c :: cur)
+  end.
+Definition p_fields (s : bytes) : list bytes := p_fields_aux s [].
+
+(* ---- SecRuleUpdateTargetById (directives.go), on the rules compiled so far, in order ---- *)
+Definition add_targets (ts : list target) (d : rule_desc) : rule_desc :=
+  mk_rule (r_targets d ++ ts) (r_op d) (r_actions d).
+
+Definition id_is (z : Z) (d : rule_desc) : bool := Z.eqb (Z.of_N (rule_id d)) z.
+Definition id_in (a b : Z) (d : rule_desc) : bool :=
+  Z.leb a (Z.of_N (rule_id d)) && Z.leb (Z.of_N (rule_id d)) b.
+
+(* updateTargetBySingleID: the FIRST rule with that id (FindByID) *)
+Fixpoint upd_first (z : Z) (ts : list target) (rules : list rule_desc) : list rule_desc :=
+  match rules with
+  | [] => []
+  | d :: r => if id_is z d then add_targets ts d :: r else d :: upd_first z ts r
+  end.
+(* the range branch: every rule whose id lies in the range *)
+Definition upd_range (a b : Z) (ts : list target) (rules : list rule_desc) : list rule_desc :=
+  map (fun d => if id_in a b d then add_targets ts d else d) rules.
+
+Fixpoint p_index (ch : N) (s : bytes) : option nat :=
+  match s with
+  | [] => None
+  | c :: r => if c =? ch then Some O else option_map S (p_index ch r)
+  end.
+
+(* one element of the id list; [only] = it is the only element (length == 2);
+   [ts] = ParseVariables of the target argument (None = it fails) *)
+Definition upd_element (only : bool) (ts : option (list target)) (el : bytes) (rules : list rule_desc)
+         : option (list rule_desc) :=
+  let single (z : Z) (always : bool) :=
+    if existsb (id_is z) rules
+    then match ts with Some t => Some (upd_first z t rules) | None => None end
+    else if always then None else Some rules in
+  match p_index 45 el with
+  | None => match p_atoi_z el with None => None | Some z => single z only end
+  | Some O => None
+  | Some idx =>
+    match p_atoi_z (firstn idx el), p_atoi_z (skipn (S idx) el) with
+    | Some a, Some b =>
+      if Z.eqb a b then single a true
+      else if Z.ltb b a then None
+      else if existsb (id_in a b) rules
+           then match ts with Some t => Some (upd_range a b t rules) | None => None end
+           else Some rules
+    | _, _ => None
+    end
+  end.
+
+Fixpoint upd_elements (only : bool) (ts : option (list target)) (els : list bytes) (rules : list rule_desc)
+         : option (list rule_desc) :=
+  match els with
+  | [] => Some rules
+  | el :: r => match upd_element only ts el rules with
+               | None => None
+               | Some rules' => upd_elements only ts r rules'
+               end
+  end.
+
+Definition apply_update (fields : list bytes) (rules : list rule_desc) : option (list rule_desc) :=
+  match fields with
+  | [] | [_] => None
+  | _ =>
+    let vars := last fields [] in
+    let ts := option_map (map target_of_call) (parse_variables (p_trim_char cDQ vars)) in
+    upd_elements (Nat.eqb (List.length fields) 2) ts (removelast fields) rules
+  end.
+
+(* ---- paths (filepath.Join / filepath.Dir on clean relative paths) ---- *)
+Definition s_dot : bytes := [46].
+Definition path_join (d p : bytes) : bytes :=
+  match d with
+  | [] => p
+  | _ => if bytes_eqb d s_dot then p else d ++ cSLASH :: p
+  end.
+Fixpoint p_drop_to_slash (r : bytes) : option bytes :=
+  match r with
+  | [] => None
+  | c :: t => if c =? cSLASH then Some t else p_drop_to_slash t
+  end.
+Definition path_dir (p : bytes) : bytes :=
+  match p_drop_to_slash (rev p) with
+  | None => s_dot
+  | Some t => rev t
+  end.
+
 (* ------------------------------------------------------------------------------------ *)
 (* line assembly: parseString / evaluateLine / Include                                  *)
 (* ------------------------------------------------------------------------------------ *)
@@ -587,13 +733,16 @@ Local Open Scope string_scope.
 Definition d_secrule : bytes := str "secrule".
 Definition d_secaction : bytes := str "secaction".
 Definition d_include : bytes := str "include".
+Definition d_update_target : bytes := str "secruleupdatetargetbyid".
 Local Close Scope string_scope.
 
 Definition max_include : N := 100.
 
-Record gstate := mk_g { g_inc : N; g_rules : list rule_desc (* reversed *) }.
+(* g_rules reversed; g_dirs (parallel to g_rules): the ConfigDir each rule was compiled with *)
+Record gstate := mk_g { g_inc : N; g_rules : list rule_desc; g_dirs : list bytes }.
 
-Inductive line_kind := LRule (d : rule_desc) | LInclude (path : bytes) | LError.
+Inductive line_kind :=
+  | LRule (d : rule_desc) | LInclude (path : bytes) | LUpdate (fields : list bytes) | LError.
 
 (* evaluateLine up to the directive call; directives other than SecRule / SecAction /
    Include are outside this model (LError) *)
@@ -612,6 +761,8 @@ Definition evaluate_line (l : bytes) : line_kind :=
     else if bytes_eqb directive d_secaction then
       match opts with [] => LError | _ =>
         match parse_secaction opts with Some d => LRule d | None => LError end end
+    else if bytes_eqb directive d_update_target then
+      match opts with [] => LError | _ => LUpdate (p_fields opts) end
     else LError
   end.
 
@@ -639,9 +790,18 @@ Fixpoint ps_loop (ev : gstate -> bytes -> option gstate)
     end
   end.
 
-(* files: the file system seen through Parser.SetRoot, as (name, content); names are looked
-   up verbatim after TrimSpace (path joining / globbing are outside the model) *)
-Fixpoint parse_string (fuel : nat) (files : list (bytes * bytes)) (g : gstate) (text : bytes)
+(* files: the file system seen through Parser.SetRoot, as (path, content) with clean relative
+   paths; [dir] is Parser.currentDir, which evaluateLine copies into ParserConfig.ConfigDir for
+   every directive; FromFile joins a relative path with it, reads the file, parses it with the
+   file's directory and restores the directory afterwards (globbing is outside the model) *)
+Definition from_file_path (dir path : bytes) : bytes :=
+  let p := p_trim_space path in
+  match p with
+  | c :: _ => if c =? cSLASH then p else path_join dir p
+  | [] => path_join dir p
+  end.
+
+Fixpoint parse_string (fuel : nat) (files : list (bytes * bytes)) (dir : bytes) (g : gstate) (text : bytes)
          : option gstate :=
   match fuel with
   | O => None
@@ -650,12 +810,19 @@ Fixpoint parse_string (fuel : nat) (files : list (bytes * bytes)) (g : gstate) (
     match ps_loop (fun g l =>
                match evaluate_line l with
                | LError => None
-               | LRule d => Some (mk_g (g_inc g) (d :: g_rules g))
+               | LRule d => Some (mk_g (g_inc g) (d :: g_rules g) (dir :: g_dirs g))
+               | LUpdate fields =>
+                 match apply_update fields (rev (g_rules g)) with
+                 | None => None
+                 | Some rules => Some (mk_g (g_inc g) (rev rules) (g_dirs g))
+                 end
                | LInclude path =>
                  if max_include <=? g_inc g then None
-                 else match p_assoc (p_trim_space path) files with
+                 else let p := from_file_path dir path in
+                      match p_assoc p files with
                       | None => None
-                      | Some content => parse_string f files (mk_g (g_inc g + 1) (g_rules g)) content
+                      | Some content =>
+                        parse_string f files (path_dir p) (mk_g (g_inc g + 1) (g_rules g) (g_dirs g)) content
                       end
                end)
             (scanner_lines ls) [] false g with
@@ -669,9 +836,27 @@ Definition include_fuel : nat := 102.
 (* the rule descriptions of a configuration text, in order; None = FromString returned an error
    (before RuleGroup.Add's id checks, see compile_config) *)
 Definition parse_config (files : list (bytes * bytes)) (text : bytes) : option (list rule_desc) :=
-  match parse_string include_fuel files (mk_g 0 []) text with
+  match parse_string include_fuel files [] (mk_g 0 [] []) text with
   | Some g => Some (rev (g_rules g))
   | None => None
+  end.
+
+(* several calls on one Parser: FromString text / FromFile path (currentDir is "" between calls) *)
+Inductive pstep := StepString (text : bytes) | StepFile (path : bytes).
+Definition run_step (files : list (bytes * bytes)) (g : gstate) (st : pstep) : option gstate :=
+  match st with
+  | StepString t => parse_string include_fuel files [] g t
+  | StepFile path =>
+    let p := from_file_path [] path in
+    match p_assoc p files with
+    | None => None
+    | Some content => parse_string include_fuel files (path_dir p) g content
+    end
+  end.
+Fixpoint run_steps (files : list (bytes * bytes)) (g : gstate) (sts : list pstep) : option gstate :=
+  match sts with
+  | [] => Some g
+  | st :: r => match run_step files g st with None => None | Some g' => run_steps files g' r end
   end.
 
 (* ------------------------------------------------------------------------------------ *)
@@ -734,44 +919,6 @@ Definition add_target (vs : list vdump) (t : target) : list vdump :=
 
 Definition compile_targets (ts : list target) : list vdump := fold_left add_target ts [].
 
-(* strconv.Atoi on what the id / phase actions accept: optional '+', decimal digits; 0 otherwise *)
-Fixpoint p_digits (s : bytes) (acc : N) : option N :=
-  match s with
-  | [] => Some acc
-  | c :: r => if (48 <=? c) && (c <=? 57) then p_digits r (acc * 10 + (c - 48)) else None
-  end.
-Definition p_atoi (s : bytes) : N :=
-  let s := match s with c :: r => if c =? 43 then r else s | [] => s end in
-  match s with
-  | [] => 0
-  | _ => match p_digits s 0 with Some n => n | None => 0 end
-  end.
-
-Definition p_parse_phase (v : bytes) : N :=
-  if bytes_eqb v s_request then 2
-  else if bytes_eqb v s_response then 4
-  else if bytes_eqb v s_logging then 5
-  else p_atoi v.
-
-Record meta := mk_meta {
-  m_id : N; m_phase : N; m_msg : option bytes; m_tags : list bytes; m_rev : bytes; m_ver : bytes
-}.
-
-(* the metadata pass of applyParsedActions (Init of id, phase, msg, tag, rev, ver) *)
-Definition meta_step (m : meta) (a : action) : meta :=
-  let n := a_name a in
-  let v := a_value a in
-  if bytes_eqb n s_id then mk_meta (p_atoi v) (m_phase m) (m_msg m) (m_tags m) (m_rev m) (m_ver m)
-  else if bytes_eqb n s_phase then mk_meta (m_id m) (p_parse_phase v) (m_msg m) (m_tags m) (m_rev m) (m_ver m)
-  else if bytes_eqb n s_msg then mk_meta (m_id m) (m_phase m) (Some (maybe_remove_quotes v)) (m_tags m) (m_rev m) (m_ver m)
-  else if bytes_eqb n s_tag then mk_meta (m_id m) (m_phase m) (m_msg m) (m_tags m ++ [v]) (m_rev m) (m_ver m)
-  else if bytes_eqb n s_rev then mk_meta (m_id m) (m_phase m) (m_msg m) (m_tags m) v (m_ver m)
-  else if bytes_eqb n s_ver then mk_meta (m_id m) (m_phase m) (m_msg m) (m_tags m) (m_rev m) v
-  else m.
-
-Definition meta_of (al : list action) : meta :=
-  fold_left meta_step (filter (fun a => a_type a =? 1) al) (mk_meta 0 2 None [] [] []).
-
 (* mergeActions with the built-in defaults of phase 2, ''phase:2,log,auditlog,pass'':
    log, auditlog first; a block is dropped; pass is appended when no other disruptive
    action remains.  Only names of non-metadata actions are observable (Rule.actions). *)
@@ -794,33 +941,51 @@ Record dump := mk_dump {
   du_actions : list bytes;
   du_id : N; du_phase : N;
   du_msg : option bytes; du_logdata : option bytes;
-  du_tags : list bytes; du_rev : bytes; du_ver : bytes
+  du_tags : list bytes; du_rev : bytes; du_ver : bytes;
+  du_data : option bytes     (* the data file a @pmFromFile / @ipMatchFromFile operator loaded *)
 }.
 
+Local Open Scope string_scope.
+Definition data_file_operators : list bytes :=
+  [str "pmFromFile"; str "pmf"; str "ipMatchFromFile"; str "ipMatchF"].
+Local Close Scope string_scope.
+
+(* loadFromFile: a relative data file is looked up in ParserConfig.ConfigDir (path.Join) *)
+Definition resolve_data (files : list (bytes * bytes)) (dir : bytes) (o : opdesc) : option bytes :=
+  if p_mem (o_name o) data_file_operators then
+    let p := path_join dir (o_arg o) in
+    match p_assoc p files with Some _ => Some p | None => None end
+  else None.
+
 (* applyParsedActions is not called at all when a SecRule has no action string *)
-Definition compile_rule (d : rule_desc) : dump :=
+Definition compile_rule (files : list (bytes * bytes)) (dir : bytes) (d : rule_desc) : dump :=
   let al := r_actions d in
   let m := meta_of al in
   mk_dump (compile_targets (r_targets d))
           (option_map (fun o => (o_fn o, o_neg o, o_arg o)) (r_op d))
           (match al with [] => [] | _ => merged_names (m_phase m) al end)
-          (m_id m) (m_phase m) (m_msg m) (logdata_of al) (m_tags m) (m_rev m) (m_ver m).
+          (m_id m) (m_phase m) (m_msg m) (logdata_of al) (m_tags m) (m_rev m) (m_ver m)
+          (match r_op d with Some o => resolve_data files dir o | None => None end).
 
 (* RuleGroup.Add (default build: the id is optional, a non-zero id must be unique) *)
-Fixpoint compile_rules (ds : list rule_desc) (seen : list N) : option (list dump) :=
+Fixpoint compile_rules (files : list (bytes * bytes)) (ds : list (bytes * rule_desc)) (seen : list N)
+         : option (list dump) :=
   match ds with
   | [] => Some []
-  | d :: r =>
-    let du := compile_rule d in
+  | (dir, d) :: r =>
+    let du := compile_rule files dir d in
     if negb (du_id du =? 0) && existsb (N.eqb (du_id du)) seen then None
-    else option_map (cons du) (compile_rules r (du_id du :: seen))
+    else option_map (cons du) (compile_rules files r (du_id du :: seen))
+  end.
+
+Definition compile_session (files : list (bytes * bytes)) (sts : list pstep) : option (list dump) :=
+  match run_steps files (mk_g 0 [] []) sts with
+  | None => None
+  | Some g => compile_rules files (combine (rev (g_dirs g)) (rev (g_rules g))) []
   end.
 
 Definition compile_config (files : list (bytes * bytes)) (text : bytes) : option (list dump) :=
-  match parse_config files text with
-  | None => None
-  | Some ds => compile_rules ds []
-  end.
+  compile_session files [StepString text].
 
 (* ------------------------------------------------------------------------------------ *)
 (* renderer and rendering variations                                                    *)
